@@ -59,9 +59,14 @@ Tolerances
 posterior-equals-sum-of-messages: |P - S| <= 1e-9 * (|P| + sum |terms|) per natural parameter.  The identity
 is algebraic; every update adds a rounding error of a few ulps of the terms involved, and messages can be
 of either sign (cancellation), hence the bound relative to the sum of magnitudes.  Observed worst ratio is
-~1e-15.  Both gauges: rtol 1e-9 on posteriors (algebraically identical
-computation; the update map is smooth and one iteration amplifies 1-ulp message differences only mildly),
-and the same 1e-9 (relative to magnitudes) on messages.
+~1e-15.
+rescaling-of-messages-never-changes-posteriors: rtol 1e-6 on posteriors and (relative to the magnitude of the
+messages addressed to the same node) on messages.  The two runs are the same real-arithmetic computation, but in
+floating point the products message*scale differ by an ulp, and the projections contain a Newton solver stopped at
+relative tolerance sqrt(eps) = 1.5e-8 (approx._KLMIN_RELTOL): measured, the posterior after one iteration moves by
+up to ~1.3e-8 relative whether the messages are perturbed by 1e-16 or 1e-10, i.e. the solver tolerance, not the
+perturbation, sets the difference.  1e-6 allows for a few such updates per node compounding within an iteration; a
+dropped or doubled scale factor (g <= 1, typically < 0.7) changes a message by tens of percent.
 
 NOT covered
 -----------
@@ -78,7 +83,8 @@ import tskit
 from rt import bounded_api, inputs
 
 ROOTWARD, LEAFWARD = 0, 1
-RTOL = 1e-9
+RTOL = 1e-9        # algebraic identity (posterior == sum of messages)
+GAUGE_RTOL = 1e-6  # two runs through the moment-matching solver, see docstring
 
 
 # ------------------------------------------------------------------ independent oracle
@@ -139,6 +145,9 @@ def make_internal_sample(ts, which=0):
                        and int(e.parent) in has_parent))
     if not cands:
         return None
+    # prefer a node that ALSO has a sample child (an edge with both ends fixed)
+    both = [u for u in cands if any(is_sample[e.child] for e in ts.edges() if e.parent == u)]
+    cands = both or cands
     u = cands[which % len(cands)]
     tables = ts.dump_tables()
     flags = tables.nodes.flags.copy()
@@ -222,27 +231,27 @@ def shape_inputs(rng, n_leaves, k):
 
 def build_inputs(tier, seed, rng):
     out = []
-    nsim = 6 if tier == "quick" else 20
+    nsim = 6 if tier == "quick" else 40
     for i in range(nsim):
         n = 3 + i % 4
         out.append((f"sim_n{n}_s{i}", small_sim(seed * 1000 + i, n, rec=(0 if i % 3 == 0 else 1e-5))))
-    for i in range(1 if tier == "quick" else 4):
+    for i in range(1 if tier == "quick" else 8):
         ts = collapse_internal(small_sim(seed * 1000 + 30 + i, 5 + i % 2, rec=0), which=i)
         if ts is not None:
             out.append((f"polytomy_{i}", ts))
     out.append(("star_forest", star_forest()))
-    nh = 2 if tier == "quick" else 6
+    nh = 2 if tier == "quick" else 12
     for i in range(nh):
         ts = small_historical(seed * 1000 + i, n0=3 + i % 2, n_hist=1 + i % 3, rec=(0 if i % 2 == 0 else 1e-5))
         out.append((f"historical_{i}", ts))
         ts2 = make_internal_sample(ts, which=i)
         if ts2 is not None:
             out.append((f"historical_internal_sample_{i}", ts2))
-    for i in range(2 if tier == "quick" else 6):
+    for i in range(2 if tier == "quick" else 12):
         ts = make_internal_sample(small_sim(seed * 1000 + 50 + i, 5, rec=(0 if i % 2 == 0 else 1e-5)), which=i)
         if ts is not None:
             out.append((f"internal_sample_{i}", ts))
-    nd = 3 if tier == "quick" else 10
+    nd = 3 if tier == "quick" else 20
     twins = 0
     for i in range(nd):
         out.append((f"diploid_{i}", small_sim(seed * 1000 + 100 + i, 2 + i % 2, ploidy=2,
@@ -250,14 +259,14 @@ def build_inputs(tier, seed, rng):
         twins += has_twin(out[-1][1])
     # make sure the single-parent ("twin") singleton-block branch is driven: first seeds whose trees have the two
     # genomes of an individual as siblings
-    want, j = (1 if tier == "quick" else 3), 0
+    want, j = (1 if tier == "quick" else 6), 0
     while want > 0 and j < 200:
         ts = small_sim(seed * 1000 + 300 + j, 2 + j % 2, ploidy=2, rec=(0 if j % 2 == 0 else 1e-5), mu=4e-4)
         j += 1
         if has_twin(ts):
             out.append((f"diploid_twin_{j - 1}", ts))
             want -= 1
-    out += shape_inputs(rng, 5, 4) if tier == "quick" else (shape_inputs(rng, 4, None) + shape_inputs(rng, 5, 30))
+    out += shape_inputs(rng, 5, 4) if tier == "quick" else (shape_inputs(rng, 4, None) + shape_inputs(rng, 5, 60))
     good = []
     for name, ts in out:
         if ts.num_mutations == 0 or ts.num_nodes > 60:
@@ -279,6 +288,7 @@ class Observer:
         self.rescale_calls = 0
         self.coverage = {"inputs_with_blocks": set(), "inputs_with_single_parent_blocks": set(),
                          "inputs_with_fixed_parent_free_child_edges": set(),
+                         "inputs_with_fixed_parent_fixed_child_edges": set(),
                          "inputs_with_free_parent_over_historical_sample": set()}
 
 
@@ -300,7 +310,7 @@ def install(variational, obs):
         before = np.array(self.node_posterior[samples], copy=True)
         orig_iterate(self, **kw)
         ctx["iteration"] += 1
-        check_state(self, ts, ctx["rep"], ctx["key"] + f"/it{ctx['iteration']}", ctx["desc"], before)
+        check_state(self, ts, ctx["rep"], ctx["key"], dict(ctx["desc"], after_iteration=ctx["iteration"]), before)
 
     EP.iterate = wrapped
     # plain-Python global lookup in `iterate` (always) and in `propagate_likelihood` (when JIT is disabled)
@@ -352,12 +362,15 @@ def gauge_case(variational, obs, rep, name, ts, mu, max_shape, regularise, phase
     smp[ts.samples()] = True
     if np.any(smp[ts.edges_parent] & ~smp[ts.edges_child]):
         obs.coverage["inputs_with_fixed_parent_free_child_edges"].add(name)
+    if np.any(smp[ts.edges_parent] & smp[ts.edges_child]):
+        obs.coverage["inputs_with_fixed_parent_fixed_child_edges"].add(name)
     if np.any(~smp[ts.edges_parent] & smp[ts.edges_child] & (ts.nodes_time[ts.edges_child] > 0)):
         obs.coverage["inputs_with_free_parent_over_historical_sample"].add(name)
     if kind == "pow2-below-tiny":
         g = np.where(rng.random(n) < 0.5, 2.0 ** -532, 2.0 ** -rng.integers(0, 6, size=n).astype(float))
-        if not np.any(g < 1e-155):
-            g[int(rng.integers(0, n))] = 2.0 ** -532
+        # at least one NON-sample node is below TINY (a sample whose edges are all singleton-block edges is never
+        # visited as an edge end, so only a free node guarantees that the in-loop rescale is reached)
+        g[int(rng.choice(np.flatnonzero(~smp)))] = 2.0 ** -532
     else:
         g = rng.uniform(0.05, 1.0, size=n)
     # change of representation on b: scale := g, messages addressed to n divided by g[n]
@@ -386,7 +399,7 @@ def gauge_case(variational, obs, rep, name, ts, mu, max_shape, regularise, phase
         rel = np.abs(Pa - Pb) / np.maximum(np.abs(Pa), np.abs(Pb))
     rel = np.where((Pa == Pb), 0.0, rel)
     worst = float(np.nanmax(rel)) if rel.size else 0.0
-    ok = bool(np.all(np.isfinite(Pb))) and not bool(np.any(np.isnan(rel))) and worst <= RTOL
+    ok = bool(np.all(np.isfinite(Pb))) and not bool(np.any(np.isnan(rel))) and worst <= GAUGE_RTOL
     # messages: compare relative to the magnitude of all messages addressed to the same node
     _, Ma = message_sums(ep, ec, n, np.array(fa.node), np.array(fa.edge), np.array(fa.block), be)
     mag = np.maximum(Ma, 1e-300)
@@ -398,7 +411,7 @@ def gauge_case(variational, obs, rep, name, ts, mu, max_shape, regularise, phase
              dmax(fa.node[:, 0], fb.node[:, 0], np.arange(n)), dmax(fa.node[:, 1], fb.node[:, 1], np.arange(n)))
     if len(be):
         de = max(de, dmax(fa.block[:, 0], fb.block[:, 0], ep[be[:, 0]]), dmax(fa.block[:, 1], fb.block[:, 1], ep[be[:, 1]]))
-    ok = ok and de <= RTOL and bool(np.all(np.array(fb.scale) == 1.0))
+    ok = ok and de <= GAUGE_RTOL and bool(np.all(np.array(fb.scale) == 1.0))
     worst = max(worst, de)
     rep.case("rescaling-of-messages-never-changes-posteriors", ok, key=key, input=desc,
              observed={"worst": worst, "posterior_gauged": Pb}, expected={"posterior_reference": Pa})
@@ -483,8 +496,15 @@ def run(req, rep):
                     for phased in phasings:
                         regularise = bool(rng.integers(0, 2))
                         k = int(rng.integers(1, 4))
-                        gauge_case(variational, obs, rep, name, ts, 1e-4, max_shape, regularise, phased, k, kind, rng,
-                                   jit_disabled)
+                        try:
+                            gauge_case(variational, obs, rep, name, ts, 1e-4, max_shape, regularise, phased, k, kind, rng,
+                                       jit_disabled)
+                        except Exception as e:  # an internal error while iterating a valid state is a failure
+                            rep.case("rescaling-of-messages-never-changes-posteriors", False,
+                                     key=f"gauge/{name}/{kind}/ms{max_shape}/ph{int(phased)}/exception",
+                                     input={"ts": bounded_api.ts_to_json(ts), "max_shape": max_shape, "gauge": kind,
+                                            "singletons_phased": phased, "regularise": regularise, "iterations_before": k},
+                                     observed=f"{type(e).__name__}: {e}", expected="iterate() completes")
     finally:
         uninstall()
     rep.notes.append("branch coverage (number of inputs): " + ", ".join(f"{k}={len(v)}" for k, v in obs.coverage.items()))
